@@ -270,6 +270,43 @@ where
   hexPad (w : Nat) (n : Nat) : List Char :=
     (List.range w).reverse.map fun i => hexDigit ((n / 16 ^ i) % 16)
 
+/-- inverse of `outToString` (used to judge the implementation's own outcome) -/
+partial def pOut : P Out := do
+  match (← tok) with
+  | "unit" => pure .unit
+  | "bool" => do pure (.bool ((← pNat) ≠ 0))
+  | "i32" => do pure (.i32 (← pInt))
+  | "i64" => do pure (.i64 (← pInt))
+  | "i128" => do pure (.i128 (← pInt))
+  | "u32" => do pure (.u32 (← pNat))
+  | "u64" => do pure (.u64 (← pNat))
+  | "u128" => do pure (.u128 (← pNat))
+  | "f32" => do pure (.f32 (BitVec.ofNat 32 (← pHexNat)))
+  | "f64" => do pure (.f64 (BitVec.ofNat 64 (← pHexNat)))
+  | "str" => do let s ← pStr; let b ← pNat; pure (.str s (b ≠ 0))
+  | "bytes" => do let bs ← pBytes; let b ← pNat; pure (.bytes bs (b ≠ 0))
+  | "none" => pure .none
+  | "some" => do pure (.some (← pOut))
+  | "seq" => do pure (.seq (← pList pOut))
+  | "map" => do pure (.map (← pList (do let k ← pOut; let v ← pOut; pure (k, v))))
+  | "variant" => do let n ← pOut; let v ← pOut; pure (.variant n v)
+  | t => throw s!"unknown out token {t}"
+
+/-- `ok <out> left <n>` | `err custom` | `err io` | `panic` -/
+def pDeOutcome : P (Except DeErr (Out × Nat)) := do
+  match (← tok) with
+  | "ok" => do
+    let o ← pOut
+    let _ ← tok
+    let left ← pNat
+    pure (.ok (o, left))
+  | "err" => do
+    match (← tok) with
+    | "io" => pure (.error .io)
+    | _ => pure (.error .custom)
+  | "panic" | "abort" => pure (.error .panic)
+  | t => throw s!"unknown outcome {t}"
+
 /-- read back-end description: `slice` | `reader <last> <n> <sizes…> <maxAlloc>` -/
 def pBackend (bytes : Bytes → RState) : P (Bytes → RState) := do
   let t ← tok
